@@ -366,6 +366,32 @@ func checkC04(c *Ctx, r *Report, tier string) {
 					where = "an apply root (runs on the Ready loop's goroutine)"
 				}
 			}
+			// a helper of the loop: every call site of f is a plain call inside a Ready loop
+			if where == "" && f.Parent() == nil {
+				sites, inLoop := 0, 0
+				for _, g := range c.ModFuncs {
+					if !c.isProd(g) {
+						continue
+					}
+					eachInstr(g, func(j ssa.Instruction) {
+						cc := asCall(j)
+						if cc == nil || cc.StaticCallee() != f {
+							return
+						}
+						sites++
+						if _, isPlain := j.(*ssa.Call); isPlain {
+							for _, l := range ro.readyLoops {
+								if l == g {
+									inLoop++
+								}
+							}
+						}
+					})
+				}
+				if sites > 0 && sites == inLoop {
+					where = "a helper that only the Ready loop calls, synchronously"
+				}
+			}
 			// Start: spawns the loop afterwards
 			eachInstr(f, func(j ssa.Instruction) {
 				if g, ok := j.(*ssa.Go); ok {
@@ -543,6 +569,35 @@ func checkC08(c *Ctx, r *Report, tier string) {
 							if guardedBy(cv.Block(), ifi, true) || guardedBy(cv.Block(), ifi, false) {
 								guard = true
 							}
+						}
+					}
+				}
+				// … or on the verdict of a predicate helper that bounds the length of the same value
+				for _, ifi := range allIfs(f) {
+					if !(guardedBy(cv.Block(), ifi, true) || guardedBy(cv.Block(), ifi, false)) {
+						continue
+					}
+					for _, l := range condLeaves(ifi.Cond, 0) {
+						hc, isC := l.(*ssa.Call)
+						if !isC || hc.Call.StaticCallee() == nil || !modLocal(hc.Call.StaticCallee()) {
+							continue
+						}
+						g := hc.Call.StaticCallee()
+						for ai, a := range hc.Call.Args {
+							if a != src.Call.Args[0] || ai >= len(g.Params) {
+								continue
+							}
+							eachInstr(g, func(j ssa.Instruction) {
+								bo, isB := j.(*ssa.BinOp)
+								if !isB {
+									return
+								}
+								for _, side := range []ssa.Value{bo.X, bo.Y} {
+									if lc, ok := side.(*ssa.Call); ok && callID(&lc.Call).is("builtin", "", "len") && lc.Call.Args[0] == ssa.Value(g.Params[ai]) {
+										guard = true
+									}
+								}
+							})
 						}
 					}
 				}
